@@ -12,6 +12,7 @@ def optVars (j : Json) : Except String (Option (List (String × Rat))) :=
 def query (c : Content) (q : Json) : Except String Json := do
   match ← jArr q with
   | [.str "init"] => pure (resJ (assocJ ratJ) (Mxl.getInit c))
+  | [.str "simy0"] => pure (resJ (assocJ ratJ) (Mxl.getInit c))
   | [.str "pvals"] => pure (resJ (assocJ ratJ) (Mxl.getParameterValues c))
   | [.str "classes"] => pure (resJ (fun p => Json.arr #[strsJ p.1, strsJ p.2]) (Mxl.getClasses c))
   | [.str "args", v, t] => pure (resJ (assocJ ratJ) (Mxl.getArgs c (← optVars v) (← jRat t)))
